@@ -170,6 +170,8 @@ type Exec struct {
 	contFor     map[ast.Stmt][]ast.Stmt
 	loopEntry   []*State
 	rangeIdx    []*Term
+	visStack    []*Term // per enclosing map-range loop: the ghost set of keys already produced
+	stableMaps  []stableMap // maps ranged over by enclosing loops that reason with visited(): they must not be written
 	framed      map[*Term]bool
 	fnSyms      map[string]*types.Func
 	replayText  *Term
@@ -370,6 +372,11 @@ func (x *Exec) havocAllHeaps(st *State) {
 	na := x.fresh("alloc", SInt)
 	st.assume(Ge(na, st.alloc))
 	st.alloc = na
+}
+
+type stableMap struct {
+	dn  string
+	ref *Term
 }
 
 var epochCounter int
